@@ -1,10 +1,11 @@
 // vtbb.h - harness-side interface of the abstract task scheduler (engine/vtbb.cpp)
 #pragma once
 namespace vtbb {
-struct Stats { long steals, mails, executed, cancelled, outstanding_allocations; };
+struct Stats { long steals, mails, executed, cancelled, outstanding_allocations, cache_allocs; };
 void init(int workers, int reported_concurrency = 0);   // fresh scheduler with `workers` virtual workers
 void finish();                                           // fails the execution if tasks were left behind or leaked
 bool interleave();                                       // inside a body: optionally let another idle worker run one task now
+int  run_others(int n);                                   // inside a body: other idle workers run up to n tasks now (setup for 'stalled body' variants); returns how many ran
 int  current_worker();
 Stats stats();
 }
